@@ -23,7 +23,8 @@ RULE = ("join programs: exhaustive product base shape x joined-item shape x crit
         "term kinds (single fields, constants, compound terms mixing target/joined/foreign tables) x statement kinds; every "
         "one-shot call twice; each join verdict is taken after one of four pre-histories of the partial statement (none, "
         "discarded sibling branches that joined the other tables, a render, a copy). non-trivial = the case has both valid and invalid "
-        "neighbours in its family; distinct = case description")
+        "neighbours in its family; distinct = case description"
+        " also: the referenced column in every operand slot of every zoo class one and two levels deep, rejected joins leave no mark (statement, item, tables, pending Joiner, in-place builders), self-joins, star terms in RETURNING, arity-0 set operands. (DESIGN.md 6a)")
 ASSUMPTIONS = [
     "reference verdict: a join criterion is invalid iff some Field in it (outside nested subqueries) is attached to a source "
     "that == none of the FROM items, earlier joined items, the item being joined, the UPDATE table or a declared CTE name",
